@@ -366,6 +366,8 @@ class Machine:
         m = re.match(r"^(.*?) = (.*) -> \[return: (bb\d+)(?:, unwind[^\]]*)?\];$", s)
         if m:
             dest_txt, call, ret = m.group(1), m.group(2), m.group(3)
+            # char literals that are parentheses would break the matching below
+            call = call.replace("')'", "'\x01'").replace("'('", "'\x02'")
             dest, rest = parse_place(dest_txt)
             depth = 0
             k = len(call) - 1
@@ -378,7 +380,7 @@ class Machine:
                         break
                 k -= 1
             callee = call[:k].strip()
-            args = [self.operand(st, frame, parse_operand(a)) for a in split_top(call[k + 1:-1])]
+            args = [self.operand(st, frame, parse_operand(a.replace("'\x01'", "')'").replace("'\x02'", "'('"))) for a in split_top(call[k + 1:-1])]
             results = self.call(st, callee, args)
             out = []
             for st1, v in results:
